@@ -44,7 +44,10 @@ class Prop:
     rule = ("random timer programs (up to 200 adds: runAt/runAfter/runEvery, delays from -5 ms to 300 ms around the 100 us "
             "floor, many equal deadlines, repeating intervals from sub-microsecond to 150 ms) issued from the loop thread, from "
             "timer callbacks (scripts, nested) and from joined foreign threads, interleaved with cancels, clock advances that hit "
-            "deadlines exactly / one off, clock jitter between two reads, and loop iterations; each case ends with drain rounds; "
+            "deadlines exactly / one off, clock jitter between two reads, and loop iterations; histories in which every pending "
+            "timer is cancelled from outside a callback (loop thread, foreign thread) while the descriptor is armed, then the "
+            "old expiry passes and the loop iterates with nothing due (oracle: an iteration woken by the timer descriptor leaves "
+            "it drained unless an alarm set in that iteration expired - `timerfd-not-drained`); each case ends with drain rounds; "
             "a case is non-trivial when at least one callback ran; distinct = distinct event traces")
     trusted_base = [
         "Lean 4.33.0 kernel; axioms allowed: propext, Classical.choice, Quot.sound",
